@@ -608,7 +608,8 @@ def rule_X1(ctx):
                     m = prog.lookup_method(ci, n.func.attr)
                     if m is not None and m.cls is ci:
                         todo.append(m)
-                    continue
+                    if m is not None:
+                        continue
                 if not _is_engine_call(n, f.params[0], engine_attrs, engine_locals):
                     continue
                 par = getattr(n, "_parent", None)
